@@ -397,11 +397,33 @@ func timerDelay(fs *factSet, fn string, now time.Time, d time.Duration) (delay t
 			if c.kind != "bool" {
 				ti.fail(st, "condition")
 			}
+			hasReturn := func(b *ast.BlockStmt) bool {
+				found := false
+				ast.Inspect(b, func(x ast.Node) bool {
+					switch x.(type) {
+					case *ast.FuncLit:
+						return false
+					case *ast.ReturnStmt:
+						found = true
+					}
+					return !found
+				})
+				return found
+			}
+			var taken *ast.BlockStmt
 			if c.i == 1 {
-				if arg := findTimer(v.Body); arg != nil {
+				taken = v.Body
+			} else if eb, ok := v.Else.(*ast.BlockStmt); ok {
+				taken = eb
+			}
+			if taken != nil {
+				if arg := findTimer(taken); arg != nil {
 					return ti.eval(arg).asDur(), ""
 				}
-				return 0, "the timer is not armed when the command is created (guarded early return)"
+				if hasReturn(taken) {
+					return 0, "the timer is not armed when the command is created (guarded early return)"
+				}
+				ti.block(taken.List) // plain statements (assignments): carry on after the if
 			}
 		default:
 			ti.fail(st, "statement")
